@@ -93,13 +93,21 @@ class Arr:
             c = AND(guard, *[simp(i == v) for i, v in zip(idx, cell) if is_sym(i)])
             self.a[cell] = ITE(c, val, self.a[cell])
 
+class CList:
+    def __init__(self, items=()): self.items = [(True, v) for v in items]
+    def append_g(self, g, v): self.items.append((g, v))
+    def __getitem__(self, k): return self.items[int(k)][1]
+    def __len__(self): return len(self.items)
+    def __iter__(self): return iter(self.items)
+
 class Interp:
     def __init__(self, src_path, fname, extra_globals=None):
         tree = ast.parse(open(src_path).read())
         self.fn = next(n for n in ast.walk(tree) if isinstance(n, ast.FunctionDef) and n.name == fname)
         self.errs = []; self.solver = None; self.max_unroll = 50; self.unrolls = []; self.assumes = []
-        self.globals = {"uint64": lambda x: x, "range": range, "len": len, "enumerate": enumerate,
-                        "min": self.smin, "max": self.smax, "numpy": self, "math": math}
+        self.globals = {"uint64": lambda x: x, "range": self.nb_range, "len": len, "enumerate": enumerate,
+                        "min": self.smin, "max": self.smax, "numpy": self, "math": math, "int": self.nb_int,
+                        "numba": self, "float": float}
         if extra_globals: self.globals.update(extra_globals)
     # numpy facade
     def empty(self, shape, dtype=None):
@@ -107,6 +115,20 @@ class Interp:
         a = numpy.empty(tuple(int(s) for s in shape), dtype=object)
         for i in numpy.ndindex(*a.shape): a[i] = z3.FreshConst(z3.IntSort() if 'int' in str(dtype) else z3.RealSort(), 'uninit')
         return Arr(a, "local", self.errs)
+    # numba scalar constructors / helpers
+    def uint64(self, x): return x if not isinstance(x, int) or x >= 0 else x + 2**64
+    def int64(self, x): return x
+    def float64(self, x): return x
+    prange = property(lambda self: self.nb_range)
+    def nb_range(self, *a):
+        a = [int(v) - 2**64 if isinstance(v, int) and v >= 2**63 else v for v in a]   # intp reinterpretation
+        return range(*a)
+    def nb_int(self, x):
+        if is_sym(x):
+            x = zv(x)
+            if z3.is_int(x): return x
+            return z3.simplify(z3.If(x >= 0, z3.ToInt(x), -z3.ToInt(-x)))
+        return int(x)
     def smin(self, a, b):
         if is_sym(a) or is_sym(b): return ITE(simp(zv(a) < zv(b)), a, b)
         return min(a, b)
@@ -210,6 +232,8 @@ class Interp:
                 brk = lfl.get('brk', False)
             self.unrolls.append(n)
             return
+        if isinstance(s, ast.Return):
+            env['__return__'] = self.ev(s.value, env, g); return
         raise NotImplementedError(ast.dump(s)[:80])
     def _load(self, t):
         import copy
@@ -230,8 +254,12 @@ class Interp:
         return bool(v)
     def binop(self, op, a, b):
         if not is_sym(a) and not is_sym(b):
-            return {ast.Add: lambda: a+b, ast.Sub: lambda: a-b, ast.Mult: lambda: a*b, ast.FloorDiv: lambda: a//b, ast.Div: lambda: a/b}[type(op)]()
+            return {ast.Add: lambda: a+b, ast.Sub: lambda: a-b, ast.Mult: lambda: a*b, ast.FloorDiv: lambda: a//b, ast.Div: lambda: a/b, ast.Pow: lambda: a**b}[type(op)]()
         a, b = zv(a), zv(b)
+        if isinstance(op, ast.Pow):
+            return z3.Function("pow", z3.RealSort(), z3.RealSort(), z3.RealSort())(z3.ToReal(a) if z3.is_int(a) else a, z3.ToReal(b) if z3.is_int(b) else b)
+        if isinstance(op, ast.Div):
+            a = z3.ToReal(a) if z3.is_int(a) else a; b = z3.ToReal(b) if z3.is_int(b) else b
         r = {ast.Add: lambda: a+b, ast.Sub: lambda: a-b, ast.Mult: lambda: a*b, ast.Div: lambda: a/b}[type(op)]()
         return z3.simplify(r)
     def ev(self, e, env, g):
@@ -267,8 +295,14 @@ class Interp:
             arr = self.ev(e.value, env, g); idx = self.ev(e.slice, env, g)
             if isinstance(arr, Arr): return arr.load(idx, g)
             return arr[idx]
+        if isinstance(e, ast.ListComp):
+            gen = e.generators[0]; out = []
+            for item in self.ev(gen.iter, env, g):
+                self.assign(gen.target, item, env, True); out.append(self.ev(e.elt, env, g))
+            return CList(out)
+        if isinstance(e, ast.List): return CList([self.ev(x, env, g) for x in e.elts])
         if isinstance(e, ast.Call) and isinstance(e.func, ast.Attribute) and e.func.attr == 'append':
-            lst = self.ev(e.func.value, env, g); lst.append((g, self.ev(e.args[0], env, g))); return None
+            lst = self.ev(e.func.value, env, g); v = self.ev(e.args[0], env, g); (lst.append_g(g, v) if isinstance(lst, CList) else lst.append((g, v))); return None
         if isinstance(e, ast.Call) and isinstance(e.func, ast.Attribute) and e.func.attr == 'argmin':
             arr = self.ev(e.func.value, env, g); return self.argmin(arr, g)
         if isinstance(e, ast.Call):
